@@ -87,3 +87,66 @@ def _tensor_box(b):
 
 
 specs.register_class("tensor", _tensor_mod, _dim, _tensor_box)
+
+
+# tensor bubbles: {"k": "bubble", "inside": diagram spec, "f": name}
+BUBBLE_FUNCS = {
+    "not": lambda x: int(not x),
+    "square": lambda x: x * x,
+    "plus1": lambda x: x + 1,
+    "double": lambda x: 2 * x,
+}
+
+
+def _bubble_dom(b):
+    return b["inside"]["dom"]
+
+
+def _bubble_cod(b):
+    return specs.spec_cod(b["inside"])
+
+
+specs.register_kind("bubble", _bubble_dom, _bubble_cod)
+
+_plain_tensor_box = _tensor_box
+
+
+def _tensor_box_with_bubbles(b):
+    if b["k"] == "bubble":
+        inside = specs.build(b["inside"])
+        return inside.bubble(func=BUBBLE_FUNCS[b["f"]])
+    return _plain_tensor_box(b)
+
+
+specs.register_class("tensor", _tensor_mod, _dim, _tensor_box_with_bubbles)
+
+
+def tensor_ref_eval(spec):
+    """ O4 for a tensor-class spec (names are dimensions). """
+    dims = _IdentityDims()
+
+    def box_tensor(b):
+        k = b["k"]
+        if k == "box":
+            arr = tensor_array(b)
+            if b.get("dag"):
+                n = len(b["cod"])
+                return np.conj(np.moveaxis(
+                    arr, list(range(n)), list(range(arr.ndim - n, arr.ndim))))
+            return arr
+        if k == "swap":
+            return specs.swap_tensor(b["l"][0], b["r"][0])
+        if k == "spider":
+            return specs.delta(sum(b["n"]), b["t"][0])
+        if k == "bubble":
+            inner = tensor_ref_eval(b["inside"])
+            func = BUBBLE_FUNCS[b["f"]]
+            flat = [func(complex(x)) for x in inner.flatten()]
+            return np.array(flat, dtype=complex).reshape(inner.shape)
+        raise HarnessError(k)
+    return specs.ref_eval(spec, dims, None, box_tensor)
+
+
+class _IdentityDims(dict):
+    def __missing__(self, key):
+        return key
